@@ -35,6 +35,19 @@ func parseBig(s string) *big.Int {
 	return z
 }
 
+// independent two's complement little-endian decoder (the predicate side does not use common.BigIntFromNeoBytes)
+func tcDecode(bs []byte) *big.Int {
+	z := new(big.Int)
+	for i := len(bs) - 1; i >= 0; i-- {
+		z.Lsh(z, 8)
+		z.Or(z, big.NewInt(int64(bs[i])))
+	}
+	if len(bs) > 0 && bs[len(bs)-1]&0x80 != 0 {
+		z.Sub(z, pow2(8*len(bs)))
+	}
+	return z
+}
+
 // minimal two's complement byte length: least k with -2^(8k-1) <= z < 2^(8k-1); 0 for z = 0
 func minLen(z *big.Int) int {
 	if z.Sign() == 0 {
@@ -313,7 +326,9 @@ func exec(line string) hx.Result {
 		for i := len(enc); okPad && i < len(in); i++ {
 			okPad = in[i] == pad
 		}
-		if !bytes.Equal(bs, in) {
+		if want := tcDecode(in); want.Cmp(z) != 0 {
+			res.Fail, res.Class = fmt.Sprintf("input %x denotes %s in two's complement, decoder returned %s", in, want, z), "neo-decode-wrong-value"
+		} else if !bytes.Equal(bs, in) {
 			res.Fail, res.Class = "BigIntFromNeoBytes modified its argument", "neo-decode-mutates-input"
 		} else if !okPad {
 			res.Fail, res.Class = fmt.Sprintf("input %x decodes to %s whose encoding %x is not a sign-extension prefix of the input", in, z, enc), "neo-decode-inconsistent"
@@ -368,12 +383,26 @@ func exec(line string) hx.Result {
 		src := common.NewZeroCopySource(b)
 		v, err := utils.DecodeVarUint(src)
 		k := errKind(err)
+		// independent reading of the same bytes: framing by the (C18-verified) source, payload by a two's complement decoder
+		// written here; the decoder must accept exactly the canonical-framed payloads denoting a uint64, with that value
+		payload, _, irr, eof := common.NewZeroCopySource(b).NextVarBytes()
+		if !eof && !irr {
+			want := tcDecode(payload)
+			inRange := want.Sign() >= 0 && want.IsUint64()
+			if inRange && (err != nil || v != want.Uint64()) {
+				res.Fail, res.Class = fmt.Sprintf("payload denotes %s, DecodeVarUint returned %d, %v", want, v, err), "varuint-decode-wrong-value"
+			} else if !inRange && err == nil {
+				res.Fail, res.Class = fmt.Sprintf("payload denotes %s (not a uint64) but DecodeVarUint returned %d", want, v), "varuint-decode-out-of-range-accepted"
+			}
+		} else if err == nil {
+			res.Fail, res.Class = "DecodeVarUint accepted a truncated or irregular encoding", "varuint-decode-malformed-accepted"
+		}
 		if err == nil {
 			res.Out = fmt.Sprintf("ok:%d,off=%d", v, src.Pos())
 			// what was accepted re-encodes to something that decodes to the same value
 			sink := common.NewZeroCopySink(nil)
 			utils.EncodeVarUint(sink, v)
-			if v2, e2 := utils.DecodeVarUint(common.NewZeroCopySource(sink.Bytes())); e2 != nil || v2 != v {
+			if v2, e2 := utils.DecodeVarUint(common.NewZeroCopySource(sink.Bytes())); res.Fail == "" && (e2 != nil || v2 != v) {
 				res.Fail, res.Class = "accepted value does not round-trip", "varuint-roundtrip"
 			}
 			if uint64(len(sink.Bytes())) < src.Pos() {
